@@ -207,6 +207,22 @@ func checkC16(tier string) {
 				ft := funcT(ps, append(append([]string(nil), outs...), "bool"))
 				add("toerror", "toerror", "ToError(error, "+ft+")", "toerror|"+funcT(ins, append(append([]string(nil), outs...), "bool")),
 					"func(e error, f "+ft+") interface{} { return deriveToError_ID(e, f) }")
+				if rep == 0 {
+					// the same signature with named results (and a parameter called err)
+					var rs []string
+					for j, t := range outs {
+						rs = append(rs, fmt.Sprintf("r%d %s", j, t))
+					}
+					rs = append(rs, "ok bool")
+					var ps2 []string
+					for j, t := range ins {
+						n := fmt.Sprintf("a%d", j)
+						ps2 = append(ps2, n+" "+t)
+					}
+					ft2 := "func(" + strings.Join(ps2, ", ") + ") (" + strings.Join(rs, ", ") + ")"
+					add("toerror", "toerror|named-results", "ToError(error, "+ft2+")", "toerror|"+funcT(ins, append(append([]string(nil), outs...), "bool")),
+						"func(e error, f "+ft2+") interface{} { return deriveToError_ID(e, f) }")
+				}
 			}
 		}
 	}
